@@ -540,7 +540,7 @@ def order_check(spec, ref, keys, outputs, rnd, mech):
 # MANIFEST-BEGIN
 MANIFEST = {
     'technique': 'online trace checker on the RHS call sequence recorded inside BaseBackend.run + offline comparison of the returned DataFrame with independent reference iterates / tight-tolerance solutions',
-    'level_text': 'For each generated model and random (T, dt, dts, cutoff, solver) the recorded sequence of vector-field calls is checked against the Euler/Heun stepping protocol (step counter, state passed, values returned at call time, predictor), the DataFrame is checked for shape, index, cutoff, first row and storage cadence, and its values are compared with the reference iterates of the independent reference RHS (1e-7) or, for scipy methods RK45/DOP853/Radau/LSODA, with a 1e-12 reference solution (50*rtol); both Heun stages use the input sample of their step; an order-of-convergence monitor checks Euler ratio ~2 and Heun ~4. Durations are given as exact binary values, as products and as the decimal literals a user writes, preferring T whose float quotient T/dt lies just below the integer step count. Relaxation oscillators integrated with scipy methods at rtol 1e-6 are judged against the error that the same method and tolerances reach on the reference right-hand side (5x + 20*rtol; rejected steps). Equations with an explicit t: adaptive solvers in the main sweep, euler / heun as probe family of a recorded finding; durations that are no multiple of the sampling step: probe family of a recorded finding. Held on the observed runs only.',
+    'level_text': 'For each generated model and random (T, dt, dts, cutoff, solver) the recorded sequence of vector-field calls is checked against the Euler/Heun stepping protocol (step counter, state passed, values returned at call time, predictor), the DataFrame is checked for shape, index, cutoff, first row and storage cadence, and its values are compared with the reference iterates of the independent reference RHS (1e-7) or, for scipy methods RK45/DOP853/Radau/LSODA, with a 1e-12 reference solution (50*rtol); both Heun stages use the input sample of their step; an order-of-convergence monitor checks Euler ratio ~2 and Heun ~4. Durations are given as exact binary values, as products and as the decimal literals a user writes, preferring T whose float quotient T/dt lies just below the integer step count. Relaxation oscillators integrated with scipy methods at rtol 1e-6 are judged against the error that the same method and tolerances reach on the reference right-hand side (5x + 20*rtol; rejected steps). Equations with an explicit t: adaptive solvers in the main sweep, euler / heun as probe family of a recorded finding; durations that are no multiple of the sampling step: probe family of a recorded finding. A long_dde family runs x(t-tau) models for 1100-2600 steps (more records than the first capacity of the history buffer) with sampling every 1, 2 or 5 steps against the Euler iterates. Held on the observed runs only.',
     'level_note': 'Trusted: vp/ref.py reference RHS and integrators, scipy DOP853 at rtol 1e-12 as the adaptive reference. Mainly the default backend; a family of fixed-step runs with coarser sampling and inputs on torch / jax / fortran shares its machinery with C02. Models are smooth and moderately stable by construction.',
 }
 # MANIFEST-END
